@@ -6,8 +6,10 @@ import (
 	"fmt"
 	"math/rand"
 	"regexp"
+	"runtime"
 	"sort"
 	"strconv"
+	"sync"
 	"time"
 
 	"verif/core"
@@ -132,11 +134,28 @@ func RandomHistories(ctx *core.Ctx, n int) {
 			ctx.ToolError("cannot install configuration %s: %v", cfg.Name, err)
 			continue
 		}
+		// generate with the seeded source (sequentially), run in parallel
+		var plans []*plan
 		for b := 0; b < n/len(Configs); b++ {
-			tr, st := randomHistory(ctx, r, cfg, ci == 0 && b < 1)
-			all = append(all, tr...)
+			plans = append(plans, planHistory(r, cfg))
+		}
+		results := make([][]traced, len(plans))
+		var wg sync.WaitGroup
+		sem := make(chan struct{}, runtime.GOMAXPROCS(0))
+		for i, pl := range plans {
+			wg.Add(1)
+			go func(i int, pl *plan) {
+				defer wg.Done()
+				sem <- struct{}{}
+				defer func() { <-sem }()
+				results[i] = runPlan(ctx, pl, ci == 0 && i == 0)
+			}(i, pl)
+		}
+		wg.Wait()
+		for i, res := range results {
+			all = append(all, res...)
 			histories++
-			steps += st
+			steps += len(plans[i].hist)
 		}
 		if err := restore(); err != nil {
 			ctx.ToolError("configuration %s: %v", cfg.Name, err)
@@ -191,28 +210,23 @@ func BuildCases(r *rand.Rand, p *core.Program, cfg Config) (in *Inputs, cases []
 	return
 }
 
-// randomHistory generates one bundle, its render cases and a history, runs it
-// and returns the fresh outcomes to be validated by TLC.
-func randomHistory(ctx *core.Ctx, r *rand.Rand, cfg Config, sample bool) ([]traced, int) {
+// plan is one generated bundle with its render cases and a history over it.
+type plan struct {
+	cfg   Config
+	prog  *core.Program
+	in    *Inputs
+	cases []RenderCase
+	ops   []Op
+	hist  []Op
+}
+
+// planHistory draws a bundle, its cases and a history of 10-30 operations:
+// every render case several times, interleaved with failing renders, JS
+// generation of each file and EvalExpr.
+func planHistory(r *rand.Rand, cfg Config) *plan {
 	g := &core.ProgGen{R: r, MaxDepth: 1 + r.Intn(3)}
 	p := g.Gen()
 	in, cases, ops, nRender := BuildCases(r, p, cfg)
-	files := in.Files
-
-	fresh, muts, err := FreshOutcomesDiff(in, ops, true)
-	if err != nil {
-		ctx.ToolError("generated bundle rejected by the compiler (generator problem): %v\n%s", err, files[0].Text)
-		return nil, 0
-	}
-	var out []traced
-	for i, c := range cases {
-		q := *p
-		q.Entry, q.Data = c.Entry, c.Data
-		out = append(out, traced{cfg, &q, fresh[ops[i].Key()], in, cases, muts[ops[i].Key()]})
-	}
-
-	// the history: every render case several times, interleaved with failing
-	// renders, JS generation of each file and EvalExpr
 	L := 10 + r.Intn(21)
 	hist := make([]Op, L)
 	for i := range hist {
@@ -220,33 +234,51 @@ func randomHistory(ctx *core.Ctx, r *rand.Rand, cfg Config, sample bool) ([]trac
 		case k < 14:
 			hist[i] = ops[r.Intn(nRender)]
 		case k < 18:
-			hist[i] = ops[nRender+r.Intn(len(files))]
+			hist[i] = ops[nRender+r.Intn(len(in.Files))]
 		default:
 			hist[i] = ops[len(ops)-1]
 		}
 	}
+	return &plan{cfg, p, in, cases, ops, hist}
+}
+
+// runPlan runs the history on one compiled bundle and returns the fresh
+// outcomes of the render cases, to be validated by TLC.
+func runPlan(ctx *core.Ctx, pl *plan, sample bool) []traced {
+	in, cfg, files := pl.in, pl.cfg, pl.in.Files
+	fresh, muts, err := FreshOutcomesDiff(in, pl.ops, true)
+	if err != nil {
+		ctx.ToolError("generated bundle rejected by the compiler (generator problem): %v\n%s", err, files[0].Text)
+		return nil
+	}
+	var out []traced
+	for i, c := range pl.cases {
+		q := *pl.prog
+		q.Entry, q.Data = c.Entry, c.Data
+		out = append(out, traced{cfg, &q, fresh[pl.ops[i].Key()], in, pl.cases, muts[pl.ops[i].Key()]})
+	}
 	inst, err := NewInstance(in)
 	if err != nil {
 		ctx.ToolError("compile: %v", err)
-		return nil, 0
+		return nil
 	}
-	f := runHistory("history", inst, hist, nil, fresh)
-	ctx.AddEvals(int64(L))
+	f := runHistory("history", inst, pl.hist, nil, fresh)
+	ctx.AddEvals(int64(len(pl.hist)))
 	ctx.AddTraces(1)
 	var steps []Step
-	for _, o := range hist {
+	for _, o := range pl.hist {
 		steps = append(steps, Step{Op: o})
 	}
 	ctx.Distinct(cfg.Name + "/" + files[0].Text + histKey(steps))
 	if sample {
-		ctx.Sample(map[string]interface{}{"cfg": cfg, "files": files, "cases": cases, "history": hist})
+		ctx.Sample(map[string]interface{}{"cfg": cfg, "files": files, "cases": pl.cases, "history": pl.hist})
 	}
 	if f != nil {
 		ctx.Violation(f.sig, "configuration "+cfg.Name+": "+f.what,
 			RandomReplay{HistoryReplay{Kind: "history", Family: "history", Cfg: cfg, Inputs: in, History: steps,
-				FailedAt: f.step + 1, What: f.what, Observed: f.obs, Fresh: f.fresh, Diff: f.diff}, cases})
+				FailedAt: f.step + 1, What: f.what, Observed: f.obs, Fresh: f.fresh, Diff: f.diff}, pl.cases})
 	}
-	return out, L
+	return out
 }
 
 // ProgJSON is the program in the JSON form the trace specs read, with the
